@@ -81,7 +81,7 @@ J('rbit.DecodeLeastSignificantBits32.contract', 'h_enf_RAnsBitDecoder_DecodeLeas
 J('rbit.StartDecoding.contract', 'h_enf_RAnsBitDecoder_StartDecoding', ['C17', 'C02', 'C18'], enforce='RAnsBitDecoder_StartDecoding',
   replace=['DecoderBuffer_Decode_u8', 'DecoderBuffer_Decode_u32', 'DecodeVarint_u32', 'DecoderBuffer_remaining_size', 'DecoderBuffer_data_head', 'DecoderBuffer_Advance', 'ans_read_init', 'ans_read_end'])
 J('direct.rt', 'h_direct_rt', ['C17'], ignore=[SHL1], unwind=34, unwind_reason='harness loops over <= 31 leading bits; vector-model copies of <= 16 bytes; unwinding assertions on', timeout=1500, cost=8)
-J('rbit.pack', 'h_rbit_pack', ['C17'], ignore=[SHL1], unwind=34, unwind_reason='harness loops over <= 32 bits; CountOneBits32 is loop-free; unwinding assertions on', timeout=1500, cost=8)
+J('rbit.pack', 'h_rbit_pack', ['C17'], ignore=[SHL1], solver='cadical', unwind=34, unwind_reason='harness loops over <= 32 bits; CountOneBits32 is loop-free; unwinding assertions on', timeout=1500, cost=8)
 ASSUMPTIONS = ['std::vector<uint32_t> bits_ is modelled by stubs/vec_bits.h (fixed capacity push_back/clear) and, in DirectBitDecoder::StartDecoding, by a contract-only resize stub carrying the C18 bound',
                'std::vector<uint32_t>::const_iterator pos_ is modelled as a pointer into bits_',
                'RAnsBitEncoder::EndEncoding (double arithmetic for the probability, reverse-order loop over all bits) is NOT under contract; the per-bit inverse is ans.rabs.step',
